@@ -39,3 +39,60 @@ PROPS["C14"] = dict(
     assumptions=COMMON_ASSUME + ["harness/src/spec.rs::spec_header / spec_encode are the reference reading of TS 102 606-1 table 2"],
     outside=[],
 )
+
+ENCAP_FNS = ["dvb_gse_rust::gse_encap::Encapsulator::<C>::encap", "dvb_gse_rust::gse_encap::Encapsulator::<C>::encap_frag",
+             "dvb_gse_rust::gse_encap::Encapsulator::<C>::check_label_re_use", "dvb_gse_rust::gse_encap::generate_gse_header",
+             "dvb_gse_rust::label::Label::{len,get_type,get_bytes}"]
+LATTICE = "pdu_len 0..=70000 x buffer_len 0..=70000 (symbolic lengths over zero-filled heap slices of symbolic length), every label/protocol type/frag id/context, arbitrary sender re-use state"
+ENC_STATE_INV = "sender pre-state assumed: current<=max, !activated => max==0, label memory None / 3-byte / non-zero 6-byte (DESIGN 3.7; preserved by every public operation, see C15 invariant harness)"
+
+PROPS["C18"] = dict(
+    claim="Bounded model checking of encap_preview vs encap and encap_frag_preview vs encap_frag on the compiled code: for ALL "
+          "lengths 0..=70000 x 0..=70000, every label, protocol type, fragment context and sender state without substitution, "
+          "the solver shows equal kind / packet length / payload length or equal error. Lengths are the only quantified "
+          "dimension the previews depend on, so the length lattice is the right bound.",
+    note="Trusted: Kani/CBMC/CaDiCaL. ConstCrc stands for the CRC calculator (previews do not compute a CRC).",
+    harnesses=[
+        H("c18::preview_vs_encap_lattice", bounds=LATTICE, unwind=8, cost=12),
+        H("c18::preview_vs_encap_frag_lattice", bounds=LATTICE, cost=5),
+        T("c18::twin_preview_vs_encap", cost=5),
+    ],
+    functions=ENCAP_FNS + ["dvb_gse_rust::gse_encap::encap_preview", "dvb_gse_rust::gse_encap::encap_frag_preview"],
+    assumptions=COMMON_ASSUME + [ENC_STATE_INV, "CRC calculator instantiated with ConstCrc (returns a symbolic constant)",
+                                 "encap_preview compared only when no re-use substitution applies (re-use off or memory != label), as the property states"],
+    outside=["lengths above 70000", "immutability of preview arguments is by type (&-only), not checked by the solver"],
+)
+
+PROPS["C11"] = dict(
+    claim="Bounded model checking of the fragmentation arithmetic on the compiled encap / encap_frag: for ALL PDU lengths "
+          "0..=65535, buffer lengths 0..=70000, context positions, ids and CRCs the solver shows the first-fragment context "
+          "counts exactly the carried bytes, each continuation completes or advances by >= 1 byte with id/CRC unchanged, "
+          "7-byte buffers always progress, and CRC-only remainders are never answered with an empty fragment.",
+    note="Trusted: Kani/CBMC/CaDiCaL. Byte-exact placement of the payload slice is checked at a symbolic index on small packets (byte tier).",
+    harnesses=[
+        H("c11::first_fragment_lattice", bounds="pdu_len 0..=65535, buffer_len 0..=70000, all labels/ptypes/sender states", unwind=8, cost=10),
+        H("c11::continuation_lattice", bounds="pdu_len 0..=65535, buffer_len 0..=70000, every ContextFrag", cost=5),
+        T("c11::twin_continuation", cost=3),
+    ],
+    functions=ENCAP_FNS,
+    assumptions=COMMON_ASSUME + [ENC_STATE_INV, "ConstCrc as CRC calculator"],
+    outside=["PDU lengths above 65535 (encap rejects them; encap_frag's 16-bit context cannot address them)"],
+)
+
+PROPS["C09"] = dict(
+    claim="Bounded model checking of encap / encap_frag / both previews on the compiled code from an arbitrary sender state: "
+          "for ALL lengths 0..=70000 x 0..=70000 and all metadata the solver shows no panic (slice, overflow, unwrap), "
+          "state equality on Err, the mandatory rejections, and (byte tier, <=16/<=32 bytes, symbolic index) an untouched buffer on Err.",
+    note="Trusted: Kani/CBMC/CaDiCaL. encap_ext members are bounded to chains of <= 2 (quick) / <= 4 (thorough) entries with <= 8 data bytes each.",
+    harnesses=[
+        H("c09::encap_lattice", bounds=LATTICE, unwind=8, cost=10),
+        H("c09::encap_total_length_limit", bounds=LATTICE + "; re-use disabled", unwind=8, cost=6),
+        H("c09::frag_and_previews_lattice", bounds=LATTICE, unwind=8, cost=8),
+        H("c09::encap_err_buffer_untouched", bounds="pdu <= 16 bytes, buffer <= 32 bytes, all byte values, symbolic index", unwind=8, cost=8),
+        H("c09::frag_err_buffer_untouched", bounds="pdu <= 16 bytes, buffer <= 32 bytes, all byte values, symbolic index", cost=5),
+        T("c09::twin_encap_lattice", cost=5),
+    ],
+    functions=ENCAP_FNS + ["dvb_gse_rust::gse_encap::encap_preview", "dvb_gse_rust::gse_encap::encap_frag_preview"],
+    assumptions=COMMON_ASSUME + [ENC_STATE_INV, "ConstCrc as CRC calculator (a user-supplied calculator that panics is outside the claim)"],
+    outside=["lengths above 70000", "buffer contents beyond 32 bytes on the Err path (all writes are after the last error return; checked on the byte tier only)"],
+)
